@@ -84,6 +84,9 @@ func jitter() int {
 	return v
 }
 
+// Exit: in the free-running variant the harness simply returns.
+func ExitProcess() {}
+
 func Emit(kind, arg string) {
 	mu.Lock()
 	events = append(events, Event{T: ThreadID(), Kind: kind, Arg: arg})
